@@ -4,3 +4,4 @@
 //! later validated by TLC against `spec/Trace_<Module>.tla`.
 pub mod trace;
 pub mod gate;
+pub mod tablekit;
